@@ -524,7 +524,7 @@ def run(chk):
     vres = [validate(d) for d, _, _, _ in cases]
     lines = [wf_line(d) for d, _, _, _ in cases]
     answers = common.driver(lines, shards=8)
-    n_wf_run = n_rej_run = 0
+    n_wf_run = n_rej_run = n_rejwf_run = 0
     engine_runs = 0
     ill_lines, ill_expect = [], []
     for (d, label, data, plans), v, a in zip(cases, vres, answers):
@@ -555,8 +555,10 @@ def run(chk):
             run_it = True                       # all of them
         elif accepted and wf and n_wf_run < engine_cap_wf and (label != "wellformed" or n_wf_run < engine_cap_wf // 2):
             run_it, n_wf_run = True, n_wf_run + 1
-        elif not accepted and isinstance(d, (dict, list, str, int)) and d and n_rej_run < engine_cap_rejected:
-            run_it, n_rej_run = True, n_rej_run + 1
+        elif not accepted and not wf and isinstance(d, (dict, list, str, int)) and d and n_rej_run < engine_cap_rejected:
+            run_it, n_rej_run = True, n_rej_run + 1     # storable-but-broken: the poison definitions
+        elif not accepted and wf and n_rejwf_run < 30:
+            run_it, n_rejwf_run = True, n_rejwf_run + 1  # the validator is merely stricter than WF
         if not run_it:
             continue
         engine_runs += 1
@@ -588,6 +590,10 @@ def run(chk):
         elif m["wf"] and oc == "illegal":
             chk.report("impl-differs-from-spec", case, impl={"outcome": oc, "validator": v[1]}, model=m,
                        law="a WF definition never fails as an Illegal State Machine (wf_no_illegal_machine tied to the engine)")
+        elif m["ill"] and oc == "SUCCEEDED" and v[1] != []:
+            # a definition the validator rejects: find_state also searches nested scopes (a transition across
+            # scopes "works" on the engine, the model stops at site (a)) — the property is silent there
+            chk.dist("ill.rejected_definition_engine_more_lenient")
         elif m["ill"] and oc == "SUCCEEDED":
             chk.report("impl-differs-from-spec", case, impl={"outcome": oc, "validator": v[1]}, model=m,
                        law="the model reaches an illegal site on a run the engine completes successfully")
